@@ -22,11 +22,13 @@ BASE_PROFILE = {
     'cts': [0, 0.5, 1, 1, 1.5, 2, 3, 0.25],
     'src_cts': [0.5, 1, 1, 2, 0.25, 1.5],
     'sink_cts': [0, 0, 0, 0.5, 1, 2],
-    'budget': [None, None, 5, 12, 30, 3, 0],
+    'budget': [None, None, 5, 12, 30, 3, 0, 2.5, 0.7 / 0.1, 2.1 / 0.3],     # (non-integral: the part after the last
+    #                                                                          whole one is never supplied)
     'horizon': (20, 60), 'p_split': 0.3,
     'script_rate': 0.6,       # expected stimulus ops per 10 time units per eligible target
     'ops_w': {'fail': 2, 'shutdown': 1, 'restore': 2, 'work_order': 2, 'block': 1.5, 'unblock': 1.5,
-              'add_capacity': 1, 'adjust_budget': 0.7, 'rewire': 0.3, 'rewire_remove': 0.3, 'offset_cycle': 0.7, 'set_cycle': 0.5},
+              'add_capacity': 1, 'adjust_budget': 0.7, 'rewire': 0.3, 'rewire_remove': 0.3, 'offset_cycle': 0.7, 'set_cycle': 0.5,
+              'rewire_bad': 0.3},
     'p_maintainer': 0.6, 'p_ct_script': 0.2, 'p_value_cb': 0.4, 'p_collect': 0.5,
     'values': [0, 0.5, 1, 1.5, 2.25, 3], 'qualities': [1, 0.5, 0.75, 0.25],
     'p_same_instant': 0.3, 'p_initial_value': 0.0, 'p_poke': 0.0, 'p_trace': 0.0, 'p_scheduler': 0.2,
@@ -44,7 +46,7 @@ def profile(name):
         p['p_resources'] = 0.6
         p['res_cap'] = (1, 2)
         p['ops_w'].update({'add_capacity': 2.5, 'block': 2.5, 'unblock': 2.5, 'adjust_budget': 1.5,
-                           'rewire': 0.8})
+                           'rewire': 0.8, 'rewire_bad': 1.5})
         p['budget'] = [3, 5, 8, 12, None, 0]
         p['p_split'] = 0.5
         p['p_between_rewire'] = 0.6
@@ -205,7 +207,7 @@ class Gen:
         if rng.random() < self.p['p_value_cb']:
             it['value_add'] = rng.choice([0.5, 1, -0.25, 2])
         if rng.random() < self.p.get('p_finish_offset', 0.1):
-            it['finish_offset'] = [rng.choice([1, 2, 3]), rng.choice([0.5, 1, -0.5, 0.25, -5])]
+            it['finish_offset'] = [rng.choice([1, 2, 3]), rng.choice([0.5, 1, -0.5, 0.25, -5, float('-inf')])]
         if rng.random() < 0.25:
             it['quality_mul'] = rng.choice([0.5, 1, 0.75])
         if rng.random() < 0.85:
@@ -461,7 +463,7 @@ class Gen:
         aimed_between = None
         if fin and rng.random() < p.get('p_split_at_spare_part', 0.15):
             it = rng.choice(fin)
-            t = (it['budget'] + 1) * it['ct']
+            t = (int(it['budget']) + 1) * it['ct']
             if 0 < t < horizon:
                 segs = [t, horizon - t]
                 aimed_between = {'t': None, 'prio': 5, 'op': 'adjust_budget', 'target': it['id'], 'n': rng.choice([1, 2])}
@@ -507,7 +509,7 @@ class Gen:
             if fin1 and rng.random() < 0.7:
                 it = rng.choice(fin1)
                 pre.append({'t': None, 'prio': 5, 'op': 'adjust_budget', 'target': it['id'],
-                            'n': rng.choice([-1, -2, -3, -it['budget'], 2, 4])})
+                            'n': rng.choice([-1, -2, -3, -int(it['budget']), 2, 4])})
             if self.rand_op is not None:
                 for k in ('block', 'set_cycle', 'unblock'):
                     if rng.random() < 0.3:
@@ -567,13 +569,15 @@ class Gen:
         if len(free) < 2:
             w.pop('rewire', None)
             w.pop('rewire_remove', None)
+        if not free:
+            w.pop('rewire_bad', None)
         if getattr(self, 'has_flag_gate', False):
             w['flag_waiting'] = 12
         for it in self.items:
             # a top-up at exactly the instant at which the exhausted source's spare part is ready (an unblocked
             # source supplies its k-th part at k * cycle time; the next one is ready one cycle later)
             if it['kind'] == 'source' and it.get('budget') and it['ct'] > 0 and rng.random() < 0.5:
-                t = (it['budget'] + 1) * it['ct']
+                t = (int(it['budget']) + 1) * it['ct']
                 if t <= horizon:
                     ops.append({'t': t, 'prio': rng.choice(PRIOS), 'op': 'adjust_budget', 'target': it['id'],
                                 'n': rng.choice([1, 2, 3])})
@@ -612,7 +616,7 @@ class Gen:
                 e['n'] = rng.choice([1, 2, 3, 5, -1, -2])
             elif op == 'offset_cycle':
                 e['target'] = rng.choice(handlers)
-                e['offset'] = rng.choice([0.5, 1, -0.5, -1, -5, 0.25])
+                e['offset'] = rng.choice([0.5, 1, -0.5, -1, -5, 0.25, float('-inf')])     # -inf: skip processing
             elif op == 'set_cycle':
                 e['target'] = rng.choice(cyclers)
                 e['ct'] = rng.choice([0, 0, 0.5, 1, 2, 0.25])
@@ -632,6 +636,13 @@ class Gen:
                     return None
                 e['target'] = rng.choice(multi)
                 e['k'] = rng.randrange(3)
+            elif op == 'rewire_bad':
+                withup = [i['id'] for i in self.items if i['id'] in free and i.get('up')]
+                if not withup:
+                    return None
+                e['target'] = rng.choice(withup)
+                e['bad'] = rng.choice(['not_a_device', 'self'])
+                e['form'] = rng.choice(['bad_first', 'bad_only', 'bad_last'])
             elif op == 'rewire':
                 a, b = rng.sample(free, 2)
                 if self.order[a] > self.order[b]:
@@ -718,6 +729,8 @@ def eval_pred(pred, part, gate=None):
         return part.value < pred['th']
     if t == 'flag':
         return bool(getattr(part, 'h_flag', False)) == pred['want']
+    if t == 'raise_once':
+        return True          # (the failure itself is raised by Pred, once)
     raise ValueError(t)
 
 
@@ -731,12 +744,64 @@ class Pred:
         self.pred = pred
 
     def __call__(self, gate, part):
+        if self.pred['t'] == 'raise_once' and not getattr(self, 'fired', False) and part_seq(part) == self.pred['k']:
+            from . import instrument
+            if not instrument.PROBING:
+                self.fired = True
+                from .build import HarnessError
+                raise HarnessError('the decider failed')
         r = eval_pred(self.pred, part, gate)
         if GATE_LOG is not None:
             from . import instrument
             if not instrument.PROBING:
                 GATE_LOG.append((gate.name, part, r))
         return r
+
+
+def generate_error_buffer(seed, tie='prng'):
+    """User code failing in the middle of a multi-part release: source -> buffer -> gate -> 1-2 handlers -> sink,
+    the handlers' inputs blocked at first so that the buffer fills; when they open, the buffer hands over one part
+    per free handler in ONE event and the gate's decider raises for the next part.  The caller catches the
+    exception that comes out of simulate() and carries on."""
+    rng = random.Random(core.stable_int('errbuf', seed))
+    nrecv = rng.choice([1, 1, 2])
+    items = [{'id': 'S1', 'kind': 'source', 'ct': rng.choice([0.25, 0.5, 1]), 'budget': None, 'values': [1],
+              'qualities': [1]},
+             {'id': 'B2', 'kind': 'buffer', 'up': ['S1'], 'cap': rng.choice([3, 4, 6, 10]), 'delay': rng.choice([0, 0, 0.5])},
+             {'id': 'G3', 'kind': 'gate', 'up': ['B2'], 'pred': {'t': 'raise_once', 'k': nrecv + 1}}]
+    ends = []
+    for k in range(nrecv):
+        h = f'H{4 + k}'
+        items.append({'id': h, 'kind': 'handler', 'up': ['G3'], 'ct': rng.choice([0.5, 1, 2])})
+        ends.append(h)
+    items.append({'id': 'K9', 'kind': 'sink', 'up': ends, 'ct': 0, 'collect': True})
+    t_open = rng.choice([3, 4.5, 6, 8])
+    script = []
+    for h in ends:
+        script.append({'t': t_open, 'prio': 10, 'op': 'unblock', 'target': h})
+    # (both handlers must be open before the buffer's release event runs: the gate is opened last)
+    script.append({'t': t_open, 'prio': 9, 'op': 'unblock', 'target': 'G3'})
+    pre = [{'t': None, 'prio': 5, 'op': 'block', 'target': x} for x in ends + ['G3']]
+    return {'resources': {}, 'items': items, 'horizon': [float(rng.choice([20, 30]))], 'script': script, 'pre': pre,
+            'tie': tie, 'seed': seed, 'max_events': 20000, 'profile': 'error_buffer'}
+
+
+def generate_decimal_buffer(i, tie='prng'):
+    """One-decimal sweep: source (cycle c) -> buffer (minimum delay d) -> sink, every (c, d) with c in 0.1..0.9 and d
+    in 0.1..3.0, long enough for 250 parts: the buffer's wake-ups for queued parts are computed as
+    now + (d - (now - stored)), which lands next to, not always on, stored + d."""
+    c = (i % 9 + 1) / 10.0
+    d = ((i // 9) % 30 + 1) / 10.0
+    variant = (i // 270) % 3
+    items = [{'id': 'S1', 'kind': 'source', 'ct': c, 'budget': None, 'values': [1], 'qualities': [1]},
+             {'id': 'B2', 'kind': 'buffer', 'up': ['S1'], 'cap': [None, 40, None][variant], 'delay': d}]
+    if variant == 2:
+        items.append({'id': 'H3', 'kind': 'handler', 'up': ['B2'], 'ct': c})
+        items.append({'id': 'K4', 'kind': 'sink', 'up': ['H3'], 'ct': 0, 'collect': False})
+    else:
+        items.append({'id': 'K3', 'kind': 'sink', 'up': ['B2'], 'ct': 0, 'collect': False})
+    return {'resources': {}, 'items': items, 'horizon': [min(60.0, 250 * c)], 'script': [], 'tie': tie,
+            'seed': i, 'max_events': 40000, 'decimal': True, 'profile': 'decimal_buffer'}
 
 
 def generate_fanout(seed, tie='prng'):
